@@ -701,3 +701,22 @@ impl<K: ExpiredKey<E>, E: Expiration, V: Copy> KeyExpTree<K, E, V> {
         }
     }
 }
+
+#[cfg(itree_verif)]
+impl<K: ExpiredKey<E>, E: Expiration, V: Copy> KeyExpTree<K, E, V> {
+    /// Read-only copy of the arena (verification hook).
+    pub fn verif_snapshot(&self) -> crate::verif::ArenaSnap<(K, V)> {
+        crate::verif::ArenaSnap {
+            root: self.root,
+            slots: self.store.buffer.iter().map(|n| crate::verif::SlotSnap {
+                parent: n.parent,
+                left: n.left,
+                right: n.right,
+                black: n.color == Color::Black,
+                payload: (n.entity.key, n.entity.val),
+            }).collect(),
+            unused: self.store.unused.clone(),
+            unused_capacity: self.store.unused.capacity(),
+        }
+    }
+}
